@@ -49,8 +49,10 @@ def import_repo():
     if got != want:
         raise RuntimeError(f"imported dippy from {got}, wanted {want}")
     import logging
+    import warnings
 
     logging.disable(logging.CRITICAL)
+    warnings.simplefilter("ignore")
     return dippy
 
 
